@@ -60,7 +60,10 @@ def run(ctx):
                "(row types ? ! * R, constraint kinds e t r o, alias tags worldbody/frame/replicate)",
                "attribute values are irrelevant to mjXSchema and fixed to '1'")
     spec = os.path.join(TLA, "XSchema.tla")
-    res, states = tlc.dump_states(spec, os.path.join(TLA, "XSchema_MC.cfg" if ctx.quick else "XSchema_MC4.cfg"), timeout=2400)
+    if not ctx.quick:       # larger exhaustive design check (2.3M documents): invariants only, not replayed
+        resb = tlc.run(spec, os.path.join(TLA, "XSchema_MC4.cfg"), timeout=3000)
+        ctx.tlc_ok(resb, "XSchema_MC4")
+    res, states = tlc.dump_states(spec, os.path.join(TLA, "XSchema_MC.cfg"), timeout=2400)
     ctx.tlc_ok(res, "XSchema_MC")
     nsim = 400 if ctx.quick else 6000
     res2, sims = tlc.simulate(spec, os.path.join(TLA, "XSchema_Sim.cfg"), num=nsim, depth=13, seed=ctx.seed + 1, timeout=1500)
